@@ -134,3 +134,32 @@ package metric
 //@   assert@store Name#* : $val == inst.name
 //@   assert@store Description#* : $val == inst.description
 //@   assert@store Unit#* : $val == inst.unit
+
+// ======================================================================== C15 meter provider lifecycle (provider.go)
+// Shutdown: the provider is marked stopped on EVERY path, whatever the readers' shutdown reports - and before that shutdown is
+// started (so no meter is handed out while or after it runs); the readers' combined shutdown function is called once with the
+// caller's context and its result returned. Meter: once stopped, the no-op meter; the meter cache is consulted only on the path on
+// which the flag was read as false.
+//@ func (mp *MeterProvider) Shutdown(ctx context.Context) (err error)
+//@   prop C15
+//@   overflow assumed
+//@   unchecked frame,no-panic readers are shut down through a function value built at construction
+//@   requires mp != nil
+//@   ensures mp.stopped.v != 0
+//@   assert@call shutdown#* : mp.stopped.v != 0 && $arg0 == ctx
+//@   assert@return#* : mp.stopped.v != 0
+//@ func (mp *MeterProvider) Meter(name string, options []metric.MeterOption) (m metric.Meter)
+//@   prop C15
+//@   acquires cache.Mutex
+//@   overflow assumed
+//@   unchecked frame,no-panic logging, option evaluation and the meter cache are outside the contracts
+//@   requires mp != nil
+//@   ensures old(mp.stopped.v) != 0 ==> typeis(m, "noop.Meter")
+//@   assert@return#1 : old(mp.stopped.v) != 0
+//@   assert@call NewMeterConfig#1 : old(mp.stopped.v) == 0
+//@ func (mp *MeterProvider) ForceFlush(ctx context.Context) (err error)
+//@   prop C15
+//@   overflow assumed
+//@   unchecked frame,no-panic readers are flushed through a function value built at construction
+//@   requires mp != nil
+//@   assert@call forceFlush#* : $arg0 == ctx
